@@ -82,3 +82,78 @@ pub fn link_race(_a: &Args) {
     println!("child_has_supervisor={}", child.cell.try_get_supervisor().is_some() as u8);
     println!("sup_children={}", kids);
 }
+
+/// C04 delivery slice: a supervisor that is Draining (parked inside a handler, backlog behind it) while one linked child panics and another is stopped:
+/// both terminal events must reach it before it exits through the drain marker.
+pub fn draining_supervisor(_a: &Args) {
+    use ractor::{Actor, ActorProcessingErr, ActorRef, SupervisionEvent};
+    use std::sync::{Arc, Mutex};
+    type Log = Arc<Mutex<Vec<String>>>;
+    struct S {
+        log: Log,
+        gate: Arc<tokio::sync::Semaphore>,
+    }
+    impl Actor for S {
+        type Msg = u64;
+        type State = ();
+        type Arguments = ();
+        async fn pre_start(&self, _: ActorRef<u64>, _: ()) -> Result<(), ActorProcessingErr> {
+            Ok(())
+        }
+        async fn handle(&self, _: ActorRef<u64>, m: u64, _: &mut ()) -> Result<(), ActorProcessingErr> {
+            self.log.lock().unwrap().push(format!("handle:{}", m));
+            if m == 1 {
+                self.gate.acquire().await.unwrap().forget();
+            }
+            Ok(())
+        }
+        async fn handle_supervisor_evt(&self, _: ActorRef<u64>, m: SupervisionEvent, _: &mut ()) -> Result<(), ActorProcessingErr> {
+            match m {
+                SupervisionEvent::ActorFailed(_, e) => self.log.lock().unwrap().push(format!("failed:{}", e)),
+                SupervisionEvent::ActorTerminated(_, _, r) => self.log.lock().unwrap().push(format!("terminated:{}", r.unwrap_or_default())),
+                _ => {}
+            }
+            Ok(())
+        }
+    }
+    struct C;
+    impl Actor for C {
+        type Msg = u64;
+        type State = ();
+        type Arguments = ();
+        async fn pre_start(&self, _: ActorRef<u64>, _: ()) -> Result<(), ActorProcessingErr> {
+            Ok(())
+        }
+        async fn handle(&self, _: ActorRef<u64>, _m: u64, _: &mut ()) -> Result<(), ActorProcessingErr> {
+            panic!("child exploded");
+        }
+    }
+    std::panic::set_hook(Box::new(|_| {}));
+    let rt = tokio::runtime::Builder::new_multi_thread().worker_threads(2).enable_all().build().unwrap();
+    let log: Log = Default::default();
+    let gate = Arc::new(tokio::sync::Semaphore::new(0));
+    rt.block_on(async {
+        let (sup, sh) = Actor::spawn(None, S { log: log.clone(), gate: gate.clone() }, ()).await.unwrap();
+        let (c1, h1) = Actor::spawn_linked(None, C, (), sup.get_cell()).await.unwrap();
+        let (c2, h2) = Actor::spawn_linked(None, C, (), sup.get_cell()).await.unwrap();
+        sup.cast(1).unwrap();
+        sup.cast(2).unwrap();
+        for _ in 0..2000 {
+            if log.lock().unwrap().iter().any(|l| l == "handle:1") {
+                break;
+            }
+            tokio::task::yield_now().await;
+        }
+        let drained = sup.drain().is_ok();
+        println!("drain_ok={}", drained as u8);
+        println!("status_when_children_exit={}", sup.get_status() as u8);
+        c1.cast(0).unwrap();
+        c2.stop(Some("done".to_string()));
+        let _ = tokio::time::timeout(std::time::Duration::from_secs(3), h1).await;
+        let _ = tokio::time::timeout(std::time::Duration::from_secs(3), h2).await;
+        gate.add_permits(4);
+        let ended = tokio::time::timeout(std::time::Duration::from_secs(3), sh).await.is_ok();
+        println!("ended={}", ended as u8);
+    });
+    println!("log={}", log.lock().unwrap().join(","));
+}
